@@ -227,6 +227,7 @@ type inst struct {
 	typeObjs []schema.Schema // the type objects registered with js, in declared order
 	built    bool
 	dead     bool // an injected failure hit this object: no further oracle on it
+	retired  bool // the caller's buffer its text lived in was given to another object: its life is over
 	nEx      int  // number of Example() calls made on an rschema
 }
 
@@ -266,15 +267,36 @@ func validPerm(p []int, n int) bool {
 // order, so it is comparable across registration orders.
 func (in *inst) build(op *Op) outcome { return in.rawBuild(op).sanitized() }
 
+// The caller's reusable buffers (Project.Buf). They live as long as the process:
+// the same memory carries one text after another, as in a caller that reads every
+// file into one buffer.
+var callerBufs [4][1 << 16]byte
+
+// content returns what the constructors are given: the text itself, or the text
+// copied into the caller's buffer and handed over as a []byte slice of it.
+func (in *inst) content() any {
+	p := in.proj
+	if p.Buf <= 0 || p.Buf >= len(callerBufs) || len(p.Text) == 0 || len(p.Text) > len(callerBufs[0]) {
+		return p.Text
+	}
+	b := callerBufs[p.Buf][:len(p.Text):len(p.Text)]
+	copy(b, p.Text)
+	return b
+}
+
 func (in *inst) rawBuild(op *Op) outcome {
 	p := in.proj
 	in.built = true
 	switch p.Kind {
 	case "jschema":
+		var oo []jschema.Option
 		if p.Opt == "optkeys" {
-			in.js = jschema.New(p.Name, p.Text, func(s *jschema.JSchema) { s.AreKeysOptionalByDefault = true })
+			oo = append(oo, func(s *jschema.JSchema) { s.AreKeysOptionalByDefault = true })
+		}
+		if b, ok := in.content().([]byte); ok {
+			in.js = jschema.New(p.Name, b, oo...)
 		} else {
-			in.js = jschema.New(p.Name, p.Text)
+			in.js = jschema.New(p.Name, p.Text, oo...)
 		}
 		rperm, tperm := op.RPerm, op.TPerm
 		if !validPerm(rperm, len(p.Rules)) {
@@ -314,14 +336,22 @@ func (in *inst) rawBuild(op *Op) outcome {
 		}
 		return outcome{obs: sb.String()}
 	case "rschema":
+		var oo []regex.Option
 		if strings.HasPrefix(p.Opt, "seed=") {
 			n, _ := strconv.ParseInt(p.Opt[5:], 10, 64)
-			in.rs = regex.New(p.Name, p.Text, regex.WithGeneratorSeed(n))
+			oo = append(oo, regex.WithGeneratorSeed(n))
+		}
+		if b, ok := in.content().([]byte); ok {
+			in.rs = regex.New(p.Name, b, oo...)
 		} else {
-			in.rs = regex.New(p.Name, p.Text)
+			in.rs = regex.New(p.Name, p.Text, oo...)
 		}
 	case "enum":
-		in.en = enum.New(p.Name, p.Text)
+		if b, ok := in.content().([]byte); ok {
+			in.en = enum.New(p.Name, b)
+		} else {
+			in.en = enum.New(p.Name, p.Text)
+		}
 	}
 	return outcome{obs: "ok"}
 }
@@ -547,10 +577,14 @@ func (in *inst) rawCall(kind string, sharedObj bool) (key string, out outcome) {
 		// json.Document is stateful and documented as not thread safe: every
 		// call works on a fresh document of the same text.
 		var d schema.Document
+		var oo []fjson.Option
 		if strings.HasPrefix(p.Name, "trail") {
-			d = fjson.New(p.Name, p.Text, fjson.AllowTrailingNonSpaceCharacters())
+			oo = append(oo, fjson.AllowTrailingNonSpaceCharacters())
+		}
+		if b, ok := in.content().([]byte); ok {
+			d = fjson.New(p.Name, b, oo...)
 		} else {
-			d = fjson.New(p.Name, p.Text)
+			d = fjson.New(p.Name, p.Text, oo...)
 		}
 		switch kind {
 		case "len":
